@@ -37,20 +37,25 @@ TAnchorProbe ==
 
 TCase ==
   /\ l <= Len(TraceLog) /\ Rec.ev = "Case"
-  /\ LET o == OptionById(Rec.opt)
+  /\ LET pd == IF Rec.pair THEN PairById(Rec.opt) ELSE [a |-> Rec.opt, b |-> Rec.opt, id |-> Rec.opt, link |-> "always"]
+         o == [OptionById(pd.a) EXCEPT !.id = Rec.opt]
          v == ValueOf(o.type, Rec.cls)
+         v2 == IF Rec.pair THEN ValueOf(OptionById(pd.b).type, Rec.cls2) ELSE None
          r == R(Rec.rule.kind, Rec.rule.shape, Rec.rule.where, MetaByName(Rec.rule.meta))
-         sig == "C18:" \o o.id \o ":" \o v.cls \o ":" \o RuleSig(r) IN
+         acc == IF Rec.pair THEN PairAccepts(pd, v, v2) ELSE Accepts(o, v)
+         pan == IF Rec.pair THEN PairPanics(pd, v, v2, r) ELSE Panics(o, v, r)
+         sig == "C18:" \o o.id \o ":" \o v.cls \o (IF Rec.pair THEN "+" \o v2.cls ELSE "") \o ":" \o RuleSig(r) IN
      /\ IF Rec.accepted /\ Crashed(Rec)
         THEN PrintT(<<"VIOL", Rec.id, ToJson([sig |-> sig, opt |-> o.id, cls |-> v.cls, text |-> v.text, rule |-> Rec.rule,
                                                exit |-> Rec.exit, panic |-> Rec.panic, where |-> Rec.frame])>>)
         ELSE TRUE
      /\ IF Rec.hang THEN PrintT(<<"HANG", Rec.id, sig>>) ELSE TRUE
-     /\ IF Rec.accepted = Accepts(o, v) /\ Crashed(Rec) = (Accepts(o, v) /\ Panics(o, v, r))
-           /\ (Rec.accepted => Rec.ran) /\ v.text = Rec.text /\ Rec.hang = Stalls(o, v, r) /\ Rec.mode = o.mode
+     /\ IF Rec.accepted = acc /\ Crashed(Rec) = (acc /\ pan)
+           /\ (Rec.accepted => Rec.ran) /\ v.text = Rec.text /\ v2.text = Rec.text2
+           /\ Rec.hang = (~Rec.pair /\ Stalls(o, v, r)) /\ Rec.mode = o.mode
         THEN TRUE
         ELSE PrintT(<<"DRIFT", Rec.id, ToJson([sig |-> sig, text |-> v.text,
-                       expected |-> [accepted |-> Accepts(o, v), crash |-> (Accepts(o, v) /\ Panics(o, v, r))],
+                       expected |-> [accepted |-> acc, crash |-> (acc /\ pan)],
                        observed |-> [accepted |-> Rec.accepted, crash |-> Crashed(Rec), exit |-> Rec.exit, hang |-> Rec.hang,
                                      err |-> Rec.loadErr]])>>)
   /\ l' = l + 1 /\ UNCHANGED <<vars, done>>
